@@ -475,19 +475,18 @@ seq_t dtw_warping_paths{{ suffix }}{{ suffix2 }}(seq_t *wps,
             // last column has smallest value
             if (psi_neg) {
                 for (idx_t ri=mir_rel + 1; ri<l1 + 1; ri++) {
-                    wpsi = ri*p.width + (p.width - 1);
+                    // same position in the row as the last column of the last row
+                    wpsi = final_wpsi - (l1 - ri)*p.width;
                     wps[wpsi] = -1;
                 }
             }
             rvalue = mir_value;
         } else {
             // last row has smallest value
-            if (psi_neg) {
-                for (ci=p.width - (l2 - mic); ci<p.width; ci++) {
-                    wpsi = l1*p.width + ci;
-                    if (p.window != 0 && p.window != l2) {
-                        wpsi--;
-                    }
+            if (psi_neg && settings->psi_2e != 0) {
+                // the cells after column mic, counted back from the last column of the last row
+                for (ci=mic; ci<l2; ci++) {
+                    wpsi = final_wpsi - (l2 - 1 - ci);
                     wps[wpsi] = -1;
                 }
             }
